@@ -1,0 +1,41 @@
+//go:build verif
+
+package server
+
+import (
+	"context"
+	"path/filepath"
+	"runtime"
+)
+
+// Verification hooks for the configuration code (settings.go).  Add-only; compiled only
+// with -tags verif.
+
+// VerifSettings gives the correspondence harness a name for the unexported settings struct
+// (its fields are exported, so the harness walks it by reflection).
+type VerifSettings = serverSettings
+
+func VerifDefaultServerSettings() VerifSettings { return defaultServerSettings() }
+
+func VerifNormalizeServerSettings(s VerifSettings) VerifSettings {
+	return normalizeServerSettings(s)
+}
+
+func VerifParseSettingsFromRaw(base VerifSettings, raw interface{}) VerifSettings {
+	return parseSettingsFromRaw(base, raw)
+}
+
+func (s *Server) VerifGetSettings() VerifSettings { return s.getSettings() }
+
+func (s *Server) VerifSetSettings(v VerifSettings) { s.setSettings(v) }
+
+func (s *Server) VerifSupportsConfiguration() bool { return s.supportsConfiguration }
+
+// VerifRefreshConfiguration runs the body of the background refresh task synchronously.
+func (s *Server) VerifRefreshConfiguration(ctx context.Context) { s.refreshConfiguration(ctx) }
+
+// VerifSettingsSource is the path of settings.go as compiled into this binary.
+func VerifSettingsSource() string {
+	_, file, _, _ := runtime.Caller(0)
+	return filepath.Join(filepath.Dir(file), "settings.go")
+}
